@@ -73,7 +73,7 @@ impl Await {
                     // NOTE: We need to get the object before resuming, since it could clear the stack.
                     let async_generator = r#gen.async_generator_object()?;
 
-                    r#gen.resume(
+                    let result = r#gen.resume(
                         Some(args.get_or_undefined(0).clone()),
                         GeneratorResumeKind::Normal,
                         context,
@@ -84,6 +84,15 @@ impl Await {
                             .downcast_mut::<AsyncGenerator>()
                             .js_expect("must be async generator")?
                             .context = Some(r#gen);
+                    }
+
+                    // An engine error (e.g. a runtime limit) raised by the resumed code bypasses
+                    // the function's own handlers, so nothing settles its promise: report it to
+                    // the job executor instead of dropping it.
+                    if let CompletionRecord::Throw(err) = result
+                        && !err.is_catchable()
+                    {
+                        return Err(err);
                     }
 
                     // e. Assert: When we reach this step, asyncContext has already been removed from the execution context stack and prevContext is the currently running execution context.
@@ -114,7 +123,7 @@ impl Await {
                     // NOTE: We need to get the object before resuming, since it could clear the stack.
                     let async_generator = r#gen.async_generator_object()?;
 
-                    r#gen.resume(
+                    let result = r#gen.resume(
                         Some(args.get_or_undefined(0).clone()),
                         GeneratorResumeKind::Throw,
                         context,
@@ -125,6 +134,15 @@ impl Await {
                             .downcast_mut::<AsyncGenerator>()
                             .js_expect("must be async generator")?
                             .context = Some(r#gen);
+                    }
+
+                    // An engine error (e.g. a runtime limit) raised by the resumed code bypasses
+                    // the function's own handlers, so nothing settles its promise: report it to
+                    // the job executor instead of dropping it.
+                    if let CompletionRecord::Throw(err) = result
+                        && !err.is_catchable()
+                    {
+                        return Err(err);
                     }
 
                     Ok(JsValue::undefined())
